@@ -132,7 +132,15 @@ ATTR_CORNERS = ["@print {T}.{a}", "uint8 AX_K = {T}.{a}", "uint8[<={T}.{a}] ax_a
                 "@print {T}.{a} + 1", "@extent {T}.{a}", "float32 AX_F = {T}.{a}", "@print {{{T}.{a}}}", "@print {T}._bit_length_.{a}"]
 
 
-def corrupt(rng: random.Random, text: str, others: list[str], svc_names: list[str], type_attrs: list | None = None) -> tuple[str, str]:
+def corrupt(rng: random.Random, text: str, others: list[str], svc_names: list[str], type_attrs: list | None = None, own: str | None = None) -> tuple[str, str]:
+    if own and rng.random() < 0.05:
+        # an undefined reference whose leading components repeat names of the referring definition itself
+        comps = own.split(".")[:-2]
+        frag = rng.choice(["%s.Covariance.1.0 own_ref" % comps[-1], "%s.%s.1.0 own_ref2" % (comps[-1], comps[-1]), "%s.%s.Nope.1.0 own_ref3" % (comps[0], comps[-1]),
+                           "%s.Nope.1.0 own_ref4" % ".".join(comps[1:]) if len(comps) > 1 else "%s.Nope.2.0 own_ref4" % comps[0], "@print %s.Part.1.0.X" % comps[-1]])
+        lines = text.split("\n")
+        i = rng.randint(0, len(lines))
+        return "own_name_ref", "\n".join(lines[:i] + [frag] + lines[i:])
     if type_attrs and rng.random() < 0.08:
         # an attribute-reference expression that names a field / union variant / constant / pseudo-member of a composite type
         tname, attrs = rng.choice(type_attrs)
@@ -232,7 +240,7 @@ class C13(Check):
         if rng.random() < 0.8:
             for _ in range(20):
                 k = rng.choice(keys)
-                kind, text = corrupt(rng, texts[k], [texts[x] for x in keys if x != k], svc, type_attrs)
+                kind, text = corrupt(rng, texts[k], [texts[x] for x in keys if x != k], svc, type_attrs, own=k)
                 if text != texts[k] and bounded(text):
                     scn["fault"] = {"k": "text", "def": k, "kind": kind, "text": text}
                     break
